@@ -1,7 +1,7 @@
 (* C01 — definitions shared by the round-2 proof files (no proofs here).
    wmatch        : what build_waveform establishes about the waveform of an atom (consumed by the emission lemma)
    tbl_guard     : the executable guard on an instantiated table (refuted class + degenerate linear segment)
-   atom_guard    : tbl_guard on every table an atom hands to TableWaveform.from_table
+   atom_guard    : tbl_guard on every table an atom hands to TableWaveform.from_table; positive duration of a FunctionPT
    guard_C01_tables : the same along the run of _create_program (scopes of loops / mappings followed)
    no_seq_rep    : leaf waveforms built by atoms contain no SequenceWaveform / RepetitionWaveform *)
 From Coq Require Import ZArith QArith Qround List Bool.
@@ -81,6 +81,8 @@ Fixpoint atom_guard (a : atom) (s : scope) (cm : chanmap) : bool :=
   | APoint es chs => inputs_guard (point_inputs s cm es chs)
   | AMulti l => (fix go (l : list atom) : bool := match l with [] => true | x :: r => atom_guard x s cm && go r end) l
   | AArith l _ r => atom_guard l s cm && atom_guard r s cm
+  | AFunc d c _ _ =>      (* FunctionPT does not drop a non-positive duration *)
+      match cm c, evals s d with Some _, Ok dv => Qltb' 0 dv | _, _ => true end
   end.
 
 (* the guard along the run of _create_program: every atom instance, under the scope / channel mapping it is built with *)
@@ -94,7 +96,7 @@ Fixpoint guard_C01_tables (p : pt) (s : scope) (cm : chanmap) : bool :=
       | Ok a, Ok b', Ok c => forallb (fun i => guard_C01_tables b (SRange s idx i) cm) (zrange a b' c)
       | _, _, _ => true
       end
-  | PMap pm chm b => guard_C01_tables b (SMapped s pm) (cm_compose cm chm)
+  | PMap pm chm b => guard_C01_tables b (SMapped s pm (map_ids pm b)) (cm_compose cm chm)
   | PRev b => guard_C01_tables b s cm
   | PPar b _ => guard_C01_tables b s cm
   | PArith _ _ _ b => guard_C01_tables b s cm
